@@ -1,8 +1,10 @@
 #!/bin/sh
-# tools/run_all.sh [tier] [seed]  — runs every registered check once and prints one line per check
+# tools/run_all.sh [tier] [seed]  — runs every registered check (or $PROPS) once and prints one line per check
 TIER=${1:-quick}; SEED=${2:-0}
-cd /verif
-for p in $(python3 -c "import json;print(' '.join(c['property_id'] for c in json.load(open('MANIFEST.json'))['checks']))"); do
-  VERIF_SEED=$SEED ./check $p --tier $TIER > /tmp/runall_$p.log 2>&1; rc=$?
-  echo "$p exit=$rc $(grep -c '^VIOLATION' /tmp/runall_$p.log) viol $(grep -c '^KNOWN-FINDING' /tmp/runall_$p.log) known :: $(tail -1 /tmp/runall_$p.log | cut -c1-150)"
+cd "$(dirname "$0")/.."
+LOGDIR=${LOGDIR:-/tmp}
+PROPS=${PROPS:-$(python3 -c "import json;print(' '.join(c['property_id'] for c in json.load(open('MANIFEST.json'))['checks']))")}
+for p in $PROPS; do
+  VERIF_SEED=$SEED ./check $p --tier $TIER > $LOGDIR/runall_$p.log 2>&1; rc=$?
+  echo "$p exit=$rc $(grep -c '^VIOLATION' $LOGDIR/runall_$p.log) viol $(grep -c '^KNOWN-FINDING' $LOGDIR/runall_$p.log) known :: $(tail -1 $LOGDIR/runall_$p.log | cut -c1-150)"
 done
